@@ -28,7 +28,7 @@ PLANS = {
     "C08": dict(engine=INO, mc=["MC_Events"],
                 quick=[("spell", 240, ""), ("burst", 24, "ks=17+240+700"), ("rand", 150, ""), ("repoint", 80, ""), ("rootwatch", 8, ""), ("tlcev", 367, "k=3"), ("tlcev", 300, "k=4"), ("tlcevlag", 400, "k=3"), ("tlcevlag", 300, "k=4")],
                 thorough=[("spell", 4000, ""), ("burst", 300, "ks=17+240+2049"), ("rand", 3000, ""), ("repoint", 1000, ""), ("rootwatch", 60, ""), ("tlcev", 3000, "k=4"), ("tlcev", 8000, "k=5"), ("tlcevlag", 1500, "k=3"), ("tlcevlag", 8000, "k=4")]),
-    "C09": dict(engine=INO, mc=["MC_WatchSet", "MC_Events", "MC_Events_held"],
+    "C09": dict(engine=INO, mc=["MC_WatchSet", "MC_WatchSet_ops", "MC_Events", "MC_Events_held"],
                 quick=[("lag", 200, ""), ("endwatch", 200, ""), ("rand", 150, ""), ("wsrand", 100, ""), ("repoint", 80, ""), ("tlcwslag", 334, "k=3"), ("tlcwslag", 300, "k=4"), ("wlpark", 40, ""), ("dselfskip", 30, ""), ("heldparent", 40, ""), ("reops", 80, ""), ("tlcevheld", 300, "k=4"), ("tlcevheldlag", 300, "k=4")],
                 thorough=[("lag", 4000, ""), ("endwatch", 4000, ""), ("rand", 3000, ""), ("wsrand", 2000, ""), ("repoint", 1000, ""), ("tlcwslag", 12000, "k=4"), ("wlpark", 400, ""), ("dselfskip", 300, ""), ("heldparent", 600, ""), ("reops", 1200, ""), ("tlcevheld", 1453, "k=4"), ("tlcevheld", 6000, "k=5"), ("tlcevheldlag", 7911, "k=4")]),
     "C10": dict(engine=INO, mc=["MC_Sched"], also_longadd=True,
